@@ -63,10 +63,17 @@ def repo_all():
     return sorted(glob.glob(os.path.join(REPO, "src", "**", "*.[ch]pp"), recursive=True))
 
 
-def _prune(prefix, keep=2):
+def _prune(prefix, keep=4, min_age_s=3600):
+    """Drop old cache directories: never the `keep` most recent ones, never one used within the last hour (another check
+    running concurrently may still be using it)."""
     ds = sorted(glob.glob(os.path.join(BUILD, prefix + "-*")), key=os.path.getmtime, reverse=True)
+    now = time.time()
     for d in ds[keep:]:
-        shutil.rmtree(d, ignore_errors=True)
+        try:
+            if now - os.path.getmtime(d) > min_age_s:
+                shutil.rmtree(d, ignore_errors=True)
+        except OSError:
+            pass
 
 
 def build_lib(flavour):
